@@ -448,7 +448,7 @@ def compare_pooled(st, exp, what, same_settings=True):
     for fld, key in (("counts", "split-counts-differ"), ("sel", "edge-length-collections-differ"),
                      ("sag", "node-age-collections-differ"), ("total", "totals-differ"), ("sumw", "totals-differ"),
                      ("rt", "rooting-types-differ"), ("rf", "rooting-types-differ")):
-        if not same_settings and fld in ("sel", "sag"):
+        if not same_settings and fld in ("counts", "sumw", "sel", "sag"):
             continue        # arrays built under different settings were mixed: only setting-independent parts
         if st[fld] != exp[fld]:
             return ("%s: %s is %s, pooling the trees gives %s" % (what, fld, str(st[fld])[:300], str(exp[fld])[:300]), key)
